@@ -35,7 +35,7 @@ LEAN_MODULES = ['ThermoVerif.Props.C02']
 RULE = ('60 % single-mix cases, 40 % histories (3–6 further operations on ONE receiver: mix again with the receiver among the '
         'inlets, assign H / h / S, separate a share — each step judged by the oracles); flags vle=True 14 %, energy_balance=False 14 %; '
         'MultiStream receivers / inlets over gl, ls, gs, gls, lL, glL and single-phase L streams (conserve_phases 50 % when one is present); '
-        '6 % gas-phase histories in a Peng-Robinson (equation-of-state) property package; 7 % of cases with trace flows (1e-9..1e-8 kmol/hr in all, non-empty); cases of 1–5 inlets (single-phase l/g streams, two-phase MultiStreams, empty streams, Heat/Power objects, None), '
+        '6 % shared-data histories (a MultiStream separated from its own phase view; a stream and its proxy taken there and back) ; 6 % gas-phase histories in a Peng-Robinson (equation-of-state) property package; 7 % of cases with trace flows (1e-9..1e-8 kmol/hr in all, non-empty); cases of 1–5 inlets (single-phase l/g streams, two-phase MultiStreams, empty streams, Heat/Power objects, None), '
         'T 250–500 K, P 1e4–1e7 Pa (log-uniform), 5 chemicals with random flows; receiver fresh / multi-phase / one of the inlets; '
         'Q = ΔT·ΣC with ΔT ∈ ±40 K, 0, or huge (fallback branches); conserve_phases 10 %; then separate_out of a sub-stream '
         '(equal shares of {exactly the parent\'s T, another T} x {same phase, opposite phase}; 15 % at another pressure) and '
@@ -285,6 +285,24 @@ def noise_is_cause(s, T0, ph0, Tstar):
         return False if fits else None
 
 
+def fresh_H(s):
+    """the enthalpy flow of the stream's CURRENT state, evaluated with the mixture functions directly (no property memo)"""
+    if s.isempty(): return 0.0
+    return value_at(s, 'H', s.T)
+
+
+def check_inlet_reads(streams, Hs, fail):
+    """an inlet's `.H` is the enthalpy of the state it is in NOW — also after a there-and-back history through a proxy
+    or a phase view that shares its property memo"""
+    for i, h in zip(streams, Hs):
+        f = fresh_H(i)
+        C = read(i, 'C')
+        floor = 1e-8 * abs(C) if C == C else 0.0          # what 1e-8 K would change: H may be a difference of large terms
+        if f == f and h == h and not abs(h - f) <= 1e-9 * max(abs(h), abs(f)) + floor:
+            fail('inlet:H-stale', f'a stream reports H = {h!r} but the enthalpy of its current state '
+                                  f'(T = {i.T!r}, P = {i.P!r}, phase {ph_of(i)}) is {f!r}')
+
+
 def sol_tokens(rec):
     if not rec: return '-'
     out = []
@@ -379,6 +397,18 @@ def run_ops(ops):
             objs.append(tmo.Power(None, power=float(t[1])))
         elif op == 'N':
             objs.append(None)
+        elif op == 'proxy':
+            a = objs[int(t[1])]
+            objs.append(a.proxy() if is_stream(a) else None)          # a second handle on the same flows and T, P
+        elif op == 'view':
+            a = objs[int(t[1])]
+            objs.append(a[t[2]] if is_multi(a) and t[2] in a.phases else None)      # the phase view parent['g'] / parent['l']
+        elif op == 'T':
+            a = objs[int(t[1])]
+            if is_stream(a): a.T = float(t[2])
+        elif op == 'rd':
+            a = objs[int(t[1])]
+            if is_stream(a): read(a, t[2] if len(t) > 2 else 'H')       # a read that fills the property memo
         elif op == 'sub':
             # a new stream holding a share of stream a's material at a.T + dT (dT = 0.0: exactly a's temperature)
             a = objs[int(t[1])]
@@ -450,6 +480,7 @@ def run_ops(ops):
             if any(h != h for h in Hs):                   # an inlet outside the property models: nothing to say
                 if creates: objs.append(tmo.Stream(None))
                 continue
+            check_inlet_reads(streams, Hs, lambda sig, what: failures.append({'signature': sig, 'op_index': len(model_in), 'what': what}))
             Cs = [read(i, 'C') for i in streams]
             Q = qv * sum(c for c in Cs if c == c) if mode == 'dT' else qv
             heat = sum(float(i.heat) for i in ins if i is not None and not is_stream(i))
@@ -595,6 +626,8 @@ def run_ops(ops):
             if op == 'isub' and b is None: continue
             Ha = read(a, 'H'); Hb = read(b, 'H') if b is not None else 0.0
             if Ha != Ha or Hb != Hb: continue
+            check_inlet_reads([x for x in (a, b) if x is not None], [Ha, Hb][:2 if b is not None else 1],
+                              lambda sig, what: failures.append({'signature': sig, 'op_index': len(model_in), 'what': what}))
             b_empty = b is not None and b.isempty()
             head = (f'sep r={st_of(a)} Hs={fbits(Ha)} Ho={fbits(Hb)} none={1 if b is None else 0} '
                     f'oe={1 if b_empty else 0} same={1 if a is b else 0}')
@@ -617,6 +650,7 @@ def run_ops(ops):
             if is_multi(a) or (b is not None and is_multi(b)): tags.add('sep:multi-phase')
             if b is not None and is_multi(a) != is_multi(b): tags.add('sep:stream-vs-multistream')
             if op == 'isub': tags.add('sep:via:isub')
+            if b is not None and is_multi(a) and any(b is a._streams.get(ph) for ph in a.phases): tags.add('sep:own-phase-view')
             tags.add('sep' + (':none' if b is None else ':empty-other' if b_empty else ':same' if a is b else
                               f':{"sameT" if b.T == Ta else "otherT"}:{"samephase" if ph_of(b) == pha else "otherphase"}'))
             if (b is None or b_empty) and (out != 'ok' or rec or a.T != Ta or a.P != Pa or ph_of(a) != pha):
@@ -869,14 +903,14 @@ def ops_kind(ops, index):
     k = -1
     for o in ops:
         w = o.split(' ')[0]
-        if w in ('S', 'M', 'MP', 'Q', 'W', 'N', 'sub', 'sum', 'add', 'radd'):
+        if w in ('S', 'M', 'MP', 'Q', 'W', 'N', 'sub', 'sum', 'add', 'radd', 'proxy', 'view'):
             k += 1
             if k == index: return w
     return None
 
 
 def nobj(ops):
-    return sum(1 for o in ops if o.split(' ')[0] in ('S', 'M', 'MP', 'Q', 'W', 'N', 'sub', 'sum', 'add', 'radd'))
+    return sum(1 for o in ops if o.split(' ')[0] in ('S', 'M', 'MP', 'Q', 'W', 'N', 'sub', 'sum', 'add', 'radd', 'proxy', 'view'))
 
 
 def gen_stream(rng, ops, empty=None, trace=False):
@@ -914,6 +948,51 @@ def gen_Q(rng, sane=False):
     if r < 0.88 or sane: return 'dT', r6(rng.uniform(-40, 40) if not sane else rng.uniform(-15, 15))
     if r < 0.95: return 'abs', r6(rng.uniform(-3e4, 3e4))
     return 'huge', r6(rng.choice([1e9, -1e9, -3e7, 1e8]))
+
+
+def gen_alias_history(rng):
+    """histories in which two handles share data: (a) the phase view of a MultiStream is separated out of its parent
+    (`parent.separate_out(parent['g'])`, `parent -= parent['l']`); (b) a stream and its proxy: read at T1, go to T2 through
+    one handle and read through the other, come back to exactly T1, then use the stream as an inlet / in a separation"""
+    ops = []
+    if rng.random() < 0.5:
+        T = gen_T(rng)
+        a = add_obj(ops, f'M {T} {gen_P(rng)} {gen_flows(rng)}|{gen_flows(rng)}')
+        if rng.random() < 0.5: ops.append(f'rd {a} H')
+        v = add_obj(ops, f'view {a} {rng.choice("gl")}')
+        if rng.random() < 0.5: ops.append(f'rd {v} H')
+        ops.append(f'{rng.choice(["sep", "sep", "isub"])} {a} {v}')
+        if rng.random() < 0.5: gen_set(rng, ops, a)
+        if rng.random() < 0.4:
+            v2 = add_obj(ops, f'view {a} {rng.choice("gl")}')
+            ops.append(f'sep {a} {v2}')
+    else:
+        T1, T2 = gen_T(rng), gen_T(rng)
+        multi = rng.random() < 0.3
+        a = (add_obj(ops, f'M {T1} {gen_P(rng)} {gen_flows(rng)}|{gen_flows(rng)}') if multi
+             else add_obj(ops, f'S {rng.choice("lg")} {T1} {gen_P(rng)} {gen_flows(rng)}'))
+        other = gen_stream(rng, ops, empty=False)
+        recv = add_obj(ops, f'S {rng.choice("lg")} 298.15 101325.0 {gen_flows(rng, True)}')
+        ops.append(f'rd {a} {rng.choice(["H", "H", "S", "C"])}')
+        p_ = add_obj(ops, f'proxy {a}')
+        first, second = (a, p_) if rng.random() < 0.5 else (p_, a)
+        ops.append(f'T {first} {T2}')
+        ops.append(f'rd {second if rng.random() < 0.8 else first} H')
+        ops.append(f'T {rng.choice([a, p_])} {T1}')
+        r = rng.random()
+        user = rng.choice([a, p_])
+        if r < 0.6:
+            mode, q = gen_Q(rng, sane=True)
+            ops.append(f'mix {recv} {user},{other} {mode} {q} 0')
+        elif r < 0.8:
+            add_obj(ops, f'sum {user},{other}')
+        elif not multi:
+            fr = ','.join(r6(rng.uniform(0, 0.6)) for _ in CHEMS)
+            b = add_obj(ops, f'sub {user} {fr} {r6(rng.uniform(-20, 20))} same 1.0')
+            ops.append(f'sep {user} {b}')
+        else:
+            ops.append(f'set {user} H cur 0')
+    return Case(ops, {'history': True})
 
 
 def gen_pr_history(rng):
@@ -1087,7 +1166,7 @@ def generate(rng, tier, index, nworkers):
     n = max(1, budget(tier)['cases'] // nworkers)
     for _ in range(n):
         r = rng.random()
-        yield gen_pr_history(rng) if r < 0.06 else gen_history(rng) if r < 0.43 else gen_case(rng)
+        yield gen_pr_history(rng) if r < 0.06 else gen_alias_history(rng) if r < 0.12 else gen_history(rng) if r < 0.45 else gen_case(rng)
 
 
 def corpus():
